@@ -36,7 +36,9 @@ static int batch(const char *listPath, const char *statsPath, const char *propOv
         ntRule = p->ntRule ? p->ntRule : "";
         writeFileText(ctx.scratch + "/current.case", text);
         CaseResult r;
+        caseCpuGuard(true);
         try { r = p->run(c, ctx); } catch (const std::exception &e) { r = CaseResult(); r.fail(std::string("exception escaped the property body: ") + e.what()); }
+        caseCpuGuard(false);
         if (r.v == CaseResult::DISCARD) { ++discards; tags["discard:" + r.msg.substr(0, 60)]++; continue; }
         ++evaluations;
         for (auto &t : r.tags) tags[t]++;
@@ -80,7 +82,9 @@ int main(int argc, char **argv) {
     if (!p) { fprintf(stderr, "unknown property %s\n", c.prop.c_str()); return 2; }
     RunCtx ctx = makeCtx("replay-" + c.prop);
     CaseResult r;
+    caseCpuGuard(true);
     try { r = p->run(c, ctx); } catch (const std::exception &e) { r = CaseResult(); r.fail(std::string("exception escaped the property body: ") + e.what()); }
+    caseCpuGuard(false);
     if (r.v == CaseResult::FAIL) {
         const bool known = !r.knownFinding.empty() && ctx.isOpen(r.knownFinding);
         printf("%s property=%s %s\n", known ? "KNOWN" : "FAIL", c.prop.c_str(), r.msg.c_str());
